@@ -125,3 +125,107 @@ def value_at(arr, layout, i, second=False):
     if layout == "time_lat":
         return float(a[i, 1 if second else 0])
     return float(a[2 * i + (1 if second else 0)])
+
+
+# ---- histories of one spectrum object (SpectrumSession.tla) --------------------------------------------------------------------
+def tlc_sessions(chk, quick, seed):
+    """model-check the session machine, make sure the memoising design is rejected, and let TLC simulate behaviours"""
+    r = common.run_tlc("SpectrumSession", "SpectrumSession_mc.cfg", workers=16, timeout=1800)
+    chk.tlc(r, "histories of one spectrum object (query / scale in place / assign / fillna / copy, 3 operations): every query is fresh")
+    if r.violated:
+        chk.violation("model:session:%s" % r.violated, "SpectrumSession violates %s" % r.violated, {"tlc": r.out[-1500:]})
+    elif not r.ok:
+        chk.machinery("TLC failed on SpectrumSession_mc: %s" % r.error)
+    rv = common.run_tlc("SpectrumSession", "SpectrumSession_memo.cfg", workers=16, timeout=600)
+    if rv.violated != "QueriesFresh":
+        chk.machinery("non-vacuity: the memoising design was not rejected by QueriesFresh (%s)" % (rv.violated or rv.error))
+    chk.set("session_non_vacuity", "Design=memo rejected by QueriesFresh")
+    num = 250 if quick else 4000
+    rg = common.run_tlc("SpectrumSession", "SpectrumSession_gen.cfg", workers=1, timeout=1800, simulate="num=%d" % num, depth=9,
+                        extra=["-seed", str(seed % 100000)])
+    sessions = []
+    for p in rg.prints:
+        try:
+            sessions.append(json.loads(p))
+        except Exception:
+            pass
+    if not sessions:
+        chk.machinery("TLC simulation of SpectrumSession produced no behaviours: %s" % (rg.error or rg.out[-400:]))
+    chk.set("session_behaviours_generated", len(sessions))
+    return sessions
+
+
+def session_replay(chk, sessions, rng, what):
+    """replay TLC behaviours of SpectrumSession on real spectrum objects; `what`: 'moments' (C01) or 'peak' (C04).
+    Returns (replayed, queries)."""
+    import numpy as np
+    replayed = queries = 0
+
+    def near(a, b, tol=1e-12):
+        return abs(a - b) <= tol * max(1.0, abs(a), abs(b))
+    for ses in sessions:
+        layout = rng.choice(["scalar", "time", "time_lat", "flat"])
+        kind = rng.choice(["1d", "1d", "2d"])
+        scale = rng.choice([1.0, 0.125])
+        line = {"f": ses["f"], "e": ses["e"], "nan": ses["nan"]}
+        line3 = {"f": ses["f"], "e": [3 * v for v in ses["e"]], "nan": ses["nan"]}
+        batch = [line] if layout == "scalar" else [line, line3]
+        ctx = {"f": ses["f"], "e": ses["e"], "nan": ses["nan"], "layout": layout, "kind": kind, "frequency_scale": scale}
+        try:
+            s = build(batch, layout, kind, scale)
+        except Exception as e:
+            chk.violation("raise:build:%s" % type(e).__name__, "building the spectrum raised", dict(ctx, error=str(e)[:300]))
+            continue
+        done = []
+        for op in ses["hist"]:
+            done.append({k: v for k, v in op.items() if k not in ("m", "pk")})
+            try:
+                if op["op"] == "scale":
+                    s.multiply(np.array(op["c"], dtype="float64"), ["frequency"], inplace=True)
+                elif op["op"] == "assign_rev":
+                    var = s.dataset["variance_density"]
+                    ax = list(var.dims).index("frequency")
+                    s["variance_density"] = (var.dims, np.flip(var.values, axis=ax).copy())
+                elif op["op"] == "fillna":
+                    s.fillna(0.0)
+                elif op["op"] == "copy":
+                    s = s.copy(deep=True)
+                else:
+                    fmin, fmax = band_of(op, scale)
+                    queries += 1
+                    members = [(0, False, 1.0)] if layout == "scalar" else [(0, False, 1.0), (1, False, 3.0)] + \
+                        ([(0, True, 2.0), (1, True, 6.0)] if layout in ("time_lat", "flat") else [])
+                    if what == "moments":
+                        mom = [s.frequency_moment(n, fmin, fmax).values for n in range(3)]
+                        with np.errstate(all="ignore"):
+                            hm0 = s.hm0(fmin, fmax).values
+                        for i, second, fac in members:
+                            exp = [fac * op["m"][n] / 2.0 * scale ** (n + 1) for n in range(3)]
+                            got = [value_at(mom[n], layout, i, second) for n in range(3)]
+                            h = value_at(hm0, layout, i, second)
+                            if not (all(near(got[n], exp[n]) for n in range(3)) and near(h * h, 16.0 * exp[0], 1e-11)):
+                                chk.violation("session:moment:%s" % "-".join(d["op"] for d in done),
+                                              "after a history of in-place operations a frequency moment / Hm0 does not describe the spectrum as it is now",
+                                              dict(ctx, history=done, band=[fmin, fmax], member=i, expected=exp, got=got, hm0=h))
+                                raise StopIteration
+                    else:
+                        if op["pk"] == 0:
+                            continue
+                        with np.errstate(all="ignore"):
+                            pk = s.peak_index(fmin, fmax).values
+                            pf = s.peak_frequency(fmin, fmax).values
+                        for i, second, fac in members:
+                            gi, gf = value_at(pk, layout, i, second), value_at(pf, layout, i, second)
+                            if not (int(gi) == op["pk"] - 1 and near(gf, ses["f"][op["pk"] - 1] * scale)):
+                                chk.violation("session:peak:%s" % "-".join(d["op"] for d in done),
+                                              "after a history of in-place operations the peak index / frequency does not describe the spectrum as it is now",
+                                              dict(ctx, history=done, band=[fmin, fmax], member=i, expected_index=op["pk"] - 1, got_index=gi, got_frequency=gf))
+                                raise StopIteration
+            except StopIteration:
+                break
+            except Exception as e:
+                chk.violation("raise:session:%s:%s" % (op["op"], type(e).__name__), "operation %s raised %s in a history" % (op["op"], type(e).__name__),
+                              dict(ctx, history=done, error=str(e)[:300]))
+                break
+        replayed += 1
+    return replayed, queries
